@@ -28,7 +28,9 @@ for pid in all_ids:
     na.append(dict(property_id=pid, reason=props.NOT_APPLICABLE.get(pid, "check not built yet (work in progress)")))
 engines = {}
 for pid, s in props.PROPS.items():
-    engines.setdefault(s["engine"], []).append(pid)
+    for e in [s["engine"]] + [part["engine"] for part in s.get("parts", [])]:
+        if pid not in engines.setdefault(e, []):
+            engines[e].append(pid)
 m = dict(
     version=1,
     setup_cmd="./check --setup",
